@@ -10,6 +10,7 @@ def register(db):
     register_nodes(db)
     register_any_attribute(db)
     register_wrapper_scope(db)
+    register_find_by_namespace(db)
     P = ["C09"]
     db.add(Contract(
         "xsdata.formats.dataclass.parsers.utils:ParserUtils.normalize_content",
@@ -285,4 +286,23 @@ def register_wrapper_scope(db):
                  ("children-are-delegated-to-the-parent-under-the-wrapper-name", "queue[1].parent is item and queue[1].qname == qname")],
         raises={}, modifies=["queue"], properties=["C09"],
         note="the wrapper branch of start(); the other branch delegates to ElementNode.child / build_node (own contracts)",
+    ))
+
+
+def register_find_by_namespace(db):
+    """find_by_namespace (wildcard / anyAttribute lookup): the first declared wildcard whose namespace constraint admits
+    the expanded name, None iff none does - a function of the declared order and the expanded name only."""
+    from pyvc.contracts import Loop, assume_method
+    E = "xsdata.formats.dataclass.models.elements"
+    assume_method(db, "XmlVar", "match_namespace", returns="bool", pure=True)
+    M = "uf('XmlVar.match_namespace', 'bool', vars[{j}], qname)"
+    NONE_BEFORE = "forall('int', lambda j: implies(0 <= j and j < {n}, not " + M.format(j="j") + "))"
+    db.add(Contract(
+        f"{E}:find_by_namespace", params={"vars": "seq[u:XmlVar]", "qname": "str"}, ghost={"i": "int"},
+        ensures=[("the-first-wildcard-that-admits-the-name",
+                  "implies(0 <= i and i < len(vars) and " + M.format(j="i") + " and " + NONE_BEFORE.format(n="i") + ", result is vars[i])"),
+                 ("none-iff-no-wildcard-admits-the-name", "(result is None) == " + NONE_BEFORE.format(n="len(vars)"))],
+        raises={}, returns="u:XmlVar|None",
+        loops=[Loop(invariants=[NONE_BEFORE.format(n="_i")], header="vars")],
+        properties=["C09", "C10"],
     ))
